@@ -114,6 +114,10 @@ func (c *Ctx) Expired() bool {
 
 // Begin records the case in flight (so a process death can be attributed)
 // and counts one execution on the implementation.
+// Beat tells the watchdog that the case in flight is making progress (used by checks whose cases are groups of
+// many executions).
+func (c *Ctx) Beat() { atomic.AddInt64(&c.beat, 1) }
+
 func (c *Ctx) Begin(witness string) {
 	c.Evals++
 	atomic.AddInt64(&c.beat, 1)
